@@ -195,7 +195,7 @@ Proof.
         - apply FR; reflexivity. }
       repeat split; try apply K; try lia. intros y [].
     - repeat split; try (apply FR; reflexivity); try lia. intros x []. }
-  set (sm := {| st_pay := w_pay m; st_mid := w_mid m; st_src := i |}) in *.
+  set (sm := {| st_pay := w_pay m; st_mid := w_mid m; st_src := i; st_topic := topic_of_wire (w_wtopic m) |}) in *.
   destruct eph.
   - (* ephemeral source: the synchronized sources are untouched *)
     assert (Hne : sc_eph (cfg s0) <> 0).
